@@ -17,16 +17,19 @@ MANIFEST_ENTRY = {
             "complete once saturated); the implementation forest's packed alternatives are compared with it in both "
             "directions on every explored sentence",
     "note": "trusted: Lean kernel; glr.py's reducer is modelled executably (Model/GLR.lean) and compared exactly "
-            "(acceptance and alternative sets) on every input except those with order-sensitive revisit sets, but no "
-            "theorem is proved about that model: forest "
-            "completeness is decided by this verified-oracle comparison on the explored scope; lost derivations on "
+            "(acceptance and alternative sets) on every input except those with order-sensitive revisit sets; that the "
+            "model's packed forest holds only parse trees is a theorem (C02_glr_model_forest_only_parses, every wf "
+            "table, input, fuel); forest "
+            "completeness is false of the pinned reducer and is decided by this verified-oracle comparison on the "
+            "explored scope; lost derivations on "
             "hidden-left-recursive grammars are the recorded finding F-GLR-2",
     "technique": "Lean 4 proof (chart correctness, exactness of the reference SPPF) + verified-oracle comparison of packed alternatives",
 }
 
 PROP = "C02"
 LEVEL = "proof"
-THEOREMS = ["C02_chart_sound", "C02_chart_complete", "C02_split_pieces_derivable", "C02_reference_sppf_exact"]
+THEOREMS = ["C02_chart_sound", "C02_chart_complete", "C02_split_pieces_derivable", "C02_reference_sppf_exact",
+            "C02_glr_model_forest_only_parses"]
 META = {
     "rule": "cases = (acyclic grammar, LALR|SLR, sentence incl. layout variants); non-trivial = complete SPPF with "
             "an ambiguous span (>= 2 alternatives for one node); distinct by (grammar, tables, input)",
